@@ -180,6 +180,7 @@ func init() {
 			c.guard("C09.2", func() { ruleCheckThenRegister(c, "C09.2") })
 			c.guard("C09.3", func() { ruleReadLoopExitPublished(c, "C09.3") })
 			c.guard("C09.4", func() { ruleClosedChannelMeansError(c, "C09.4") })
+			c.guard("C09.5", func() { ruleTerminalErrorAssigned(c, "C09.5"); ruleLatchRelease(c, "C09.5") })
 			c.guard("C09.6", func() { ruleWaitingEscapable(c, "C09.6") })
 		},
 	})
@@ -194,6 +195,53 @@ func init() {
 			c.guard("C10.3", func() { ruleStreamsCancelledAndAwaited(c, "C10.3") })
 			c.guard("C10.4", func() { ruleHandlerCtxCancelledByConnEnd(c, "C10.4") })
 			c.guard("C10.5", func() { ruleServerGoroutinesCanExit(c, "C10.5") })
+		},
+	})
+}
+
+func init() {
+	register(&propSpec{
+		id: "C12",
+		explanation: "Structural necessary conditions of 'no envelope sequence from a peer can crash or stall a server': both dispatch sites are reached only under header-present ∧ method-parsed ∧ destination==server-name ∧ service-known ∧ method-known (C12.1); no panic site reachable from peer-driven code is controlled by peer-derived data (C12.2); every field access through an optional sub-message of a received envelope is nil-guarded, with nonnil(rpc.Header) carried across the serve→worker/stream boundary as a verified entry contract (C12.3); unknown-stream envelopes are answered per the table (C12.4); every rejection leads back to the read loop and serve returns only on read error / done context / failed write (C12.5); nothing blocks under the server registry lock (C12.6). The bounded-exhaustive sequence space is NOT decided.",
+		ruleText:    "obligation = one dispatch guard, panic site, field access, branch or blocking primitive; non-trivial = needed facts, taint provenance, locksets",
+		assumptions: baseAssumptions,
+		run: func(c *Ctx, thorough bool) {
+			c.guard("C12.1", func() { ruleHandlerGate(c, "C12.1") })
+			c.guard("C12.2", func() {
+				rulePanicReachability(c, "C12.2", c.p.inFns("goat.handler.", "goat.Server.", "server.", "goat.contextFromHeaders", "goat.parse", "int."))
+			})
+			c.guard("C12.3", func() { ruleServerNilChecks(c, "C12.3") })
+			c.guard("C12.4", func() { ruleUnknownStream(c, "C12.4") })
+			c.guard("C12.5", func() { ruleServingContinues(c, "C12.5") })
+			c.guard("C12.6", func() {
+				ruleNoBlockUnderRegistryLock(c, "C12.6", func(k string) bool { return k == "goat.handler.mu" })
+			})
+		},
+	})
+	register(&propSpec{
+		id: "C13",
+		explanation: "Structural necessary conditions of 'no envelope sequence from a peer can crash a client or leave a call hanging': value-or-error postcondition of the unary call (C13.1); optional sub-messages of received envelopes are nil-guarded on the client side (C13.2); no client panic site is controlled by peer data (C13.3); every exit of the stream read loop releases the ready latch (C13.4) and assigns a provably non-nil terminal error unless it is the OK-trailer exit (C13.5); unknown ids are dropped without any channel operation (C13.6); no send on / double close of a closed per-call queue: closes look the element up and delete it in one critical section, sends look it up in the same critical section (C13.7); nothing blocks under the client registry lock (C13.8). 'Every call has terminated once the connection is closed' is a liveness claim and is NOT decided.",
+		ruleText:    "obligation = one return, field access, panic site, exit path, channel operation; non-trivial = needed facts, provenance, path search, locksets",
+		assumptions: baseAssumptions,
+		run: func(c *Ctx, thorough bool) {
+			clientFns := c.p.inFns("client.", "goat.ClientConn.", "goat.headersFromContext")
+			c.guard("C13.1", func() { ruleValueOrError(c, "C13.1") })
+			c.guard("C13.2", func() {
+				n := ruleOptionalSubMsgNilChecked(c, "C13.2", clientFns, nil)
+				c.floor("C13.2", "field accesses through optional sub-messages (client side)", n, 2)
+			})
+			c.guard("C13.3", func() { rulePanicReachability(c, "C13.3", clientFns) })
+			c.guard("C13.4", func() { ruleLatchRelease(c, "C13.4") })
+			c.guard("C13.5", func() { ruleTerminalErrorAssigned(c, "C13.5") })
+			c.guard("C13.6", func() { ruleUnknownIdsDropped(c, "C13.6") })
+			c.guard("C13.7", func() {
+				f := func(d string) bool { return d == "handlers[]" || d == "rCh" }
+				ruleCloseSendExclusion(c, "C13.7", f)
+				ruleNoDoubleClose(c, "C13.7", f)
+			})
+			c.guard("C13.8", func() {
+				ruleNoBlockUnderRegistryLock(c, "C13.8", func(k string) bool { return k == muxLock })
+			})
 		},
 	})
 }
